@@ -152,7 +152,13 @@ def generators(ctx, RA, RG, P) -> None:
                     ctx.check(cname == f"{want_prefix}{fam}Event", RG, f"{gname} {kind}-loop class [{b.sig()}]", f"{kind} loop yields {cname}, expected {want_prefix}{fam}Event", yloc)
                     syn = [k for k in t.keywords if k.arg == "is_synthetic"]
                     ctx.check(bool(syn) and isinstance(syn[0].value, ast.Constant) and syn[0].value.value is True, RG, f"{gname} {kind}-loop synthetic flag [{b.sig()}]", f"{cname} not marked is_synthetic=True", yloc)
+                    # (src_path, dest_path) by position or by keyword
                     args = list(t.args)
+                    kw_ = {k.arg: k.value for k in t.keywords if k.arg}
+                    if len(args) < 1 and "src_path" in kw_:
+                        args.append(kw_["src_path"])
+                    if len(args) == 1 and "dest_path" in kw_:
+                        args.append(kw_["dest_path"])
                     dst = args[1] if fam == "Moved" and len(args) > 1 else (args[0] if args else None)
                     ctx.check(dst is not None and ast.unparse(dst) == joined, RG, f"{gname} {kind}-loop destination [{b.sig()}]", f"destination/path is `{ast.unparse(dst) if dst is not None else None}`, expected {joined}", yloc)
                     if fam == "Moved":
